@@ -84,6 +84,12 @@ def serde_stubs(cx, engine):
         return v
 
     def h_visit(engine, st, fr, callee, argv, m):
+        recv = argv[0]
+        if isinstance(recv, Agg) and recv.name == "Proxy":
+            # lexpr's Number::visit calling back into serde-lexpr's adapter: run the adapter's own method
+            f = find_method(cx, "serde-lexpr/src/value/de.rs", m.group(1), "Proxy<")
+            if f is not None:
+                return ("fork", [(z3.BoolVal(True), ("frame", f, list(argv), None), None)])
         nm = seq(st, "visit")
         err = z3.Bool(nm + "_err")
         st.events.append(("visit", m.group(1), tuple(argv[1:]), err))
